@@ -1022,8 +1022,9 @@ class RC:
     def has_default(self, f, p, k):
         if p.default is not None:
             return True
-        # Kotlin / Scala: an overriding function inherits the default values of the overridden one
-        if self.lang in ('kotlin', 'scala') and getattr(f, 'override', False):
+        # an overriding function inherits the default values of the overridden one (Kotlin / Scala by rule;
+        # Groovy / Java through the inherited overload that a default parameter generates)
+        if getattr(f, 'override', False):
             for c in self.classes.values():
                 if f in c.functions:
                     for sup, sth in self.chain(c, {})[1:]:
